@@ -108,6 +108,21 @@ pub fn v1_history(x: &[u8], salt: u64) -> Vec<Vec<u8>> {
             h.push(z);
         }
     } else if !x.is_empty() && x.len() < 107 && rng.coin() {
+        // x itself is CR-free (an unfinished text header): the buffer is refilled with a binary
+        // header at least as long - complete, then cut short
+        h.push(x.to_vec());
+        let l = x.len().saturating_sub(16) + rng.below(20) as usize;
+        let mut b = crate::v2::SIG.to_vec();
+        b.extend_from_slice(&[0x21, 0x00, (l >> 8) as u8, l as u8]);
+        b.extend(rng.bytes(l));
+        h.push(b.clone());
+        h.push(x.to_vec());
+        b[15] = b[15].wrapping_add(9);
+        if b[15] >= 9 {
+            h.push(b);
+            h.push(x.to_vec());
+        }
+    } else if !x.is_empty() && x.len() < 107 {
         // x itself is CR-free: follow it by the same bytes with a CR early on
         h.push(x.to_vec());
         let mut z = x.to_vec();
@@ -183,7 +198,13 @@ fn is_v2(x: &[u8]) -> bool {
 pub fn v2_history(x: &[u8], salt: u64) -> Vec<Vec<u8>> {
     let mut rng = Rng::new(salt ^ 0x0B1A_A2D2);
     let rng = &mut rng;
-    let mut h: Vec<Vec<u8>> = vec![x.to_vec()];
+    let mut h: Vec<Vec<u8>> = Vec::new();
+    if x.len() >= 8 && rng.coin() {
+        // the buffer held an unfinished text header before
+        let t = b"PROXY TCP4 127.0.0.1 127.0.0.2 4";
+        h.push(t[..t.len().min(x.len())].to_vec());
+    }
+    h.push(x.to_vec());
     if !is_v2(x) {
         if x.len() >= 4 {
             // same place, same length, other content
